@@ -273,15 +273,18 @@ Theorem cur_vi_decode_flat c : cur_inv c -> wf_bytes (cur_view c) ->
 Proof.
   intros I Hwf. unfold cur_vi_decode. rewrite (cur_remaining_law c I).
   destruct (cur_view c) as [|b0 r] eqn:V.
-  - cbn. rewrite V. repeat split; auto. unfold len; cbn; lia.
+  - change (len [] =? 0) with true. cbv iota. unfold vi_decode. cbn [fst snd].
+    split; [reflexivity|]. split; [exact I|]. split; [exact V|]. unfold len; cbn [length]; lia.
   - replace (len (b0 :: r) =? 0) with false by (unfold len; cbn [length]; lia).
     destruct (cur_get_u8_law c b0 r I V) as (c1 & G1 & I1 & V1 & P1). rewrite G1.
     unfold vi_decode.
     destruct (assoc (N.shiftr b0 dec_tag_shift) dec_rows) as [[need [errc [copy total]]]|] eqn:A.
-    2:{ cbn [fst snd]. repeat split; auto. rewrite P1. unfold len; cbn [length]; lia. }
+    2:{ cbn [fst snd]. split; [reflexivity|]. split; [exact I1|]. split; [exact V1|].
+        rewrite P1. unfold len; cbn [length]; lia. }
     rewrite (cur_remaining_law c1 I1), V1.
     destruct (len r <? need) eqn:E1.
-    { cbn [fst snd]. repeat split; auto. rewrite P1. unfold len; cbn [length]; lia. }
+    { cbn [fst snd]. split; [reflexivity|]. split; [exact I1|]. split; [exact V1|].
+      rewrite P1. unfold len; cbn [length]; lia. }
     (* the table rows have copy = need (generated fact), so copy <= len r *)
     assert (Hrow : copy <= need).
     { revert A. unfold dec_rows. cbn [assoc].
@@ -289,7 +292,7 @@ Proof.
         intros H; inversion H; subst; lia. }
     destruct (len r <? copy) eqn:E2; [lia|].
     destruct (cur_copy_to_slice_law copy c1 I1) as (c2 & C1 & I2 & V2 & P2); [rewrite V1; lia|].
-    rewrite C1, V1. cbn [fst snd]. repeat split; auto.
+    rewrite C1, V1. cbn [fst snd]. split; [reflexivity|]. split; [exact I2|]. split.
     + rewrite V2, V1. reflexivity.
     + rewrite P2, P1, len_skipn. unfold len; cbn [length]. unfold len in *. lia.
 Qed.
